@@ -1023,7 +1023,7 @@ def run(ctx: Ctx):
         except Exception as ex:  # noqa: BLE001
             ctx.broken.append(Broken("correspondence", f"corpus file {f.name} unreadable", repr(ex)))
     ctx.cov["corpus_cases"] = len(corpus)
-    cases = corpus + structured_cases(ctx, r) + random_cases(ctx, r, ctx.budget(100, 300)) + pipeline_cases(ctx, r, ctx.budget(3, 8))
+    cases = corpus + structured_cases(ctx, r) + random_cases(ctx, r, ctx.budget(100, 200)) + pipeline_cases(ctx, r, ctx.budget(3, 8))
     if not ctx.quick:
         cases += exhaustive_cases(ctx, ctx.rng("exh"))
         cases += exhaustive_tree_cases(ctx, ctx.rng("exh_trees"))
